@@ -59,15 +59,20 @@ class LiteIdentityKeyStore(IdentityKeyStore):
 
     def saveIdentity(self, recipientId, identityKey):
         # delete and insert in one transaction, so that a crash in between cannot lose the pinned identity
-        q = "DELETE FROM identities WHERE recipient_id=?"
-        c = self.dbConn.cursor()
-        c.execute(q, (recipientId,))
-
-        q = "INSERT INTO identities (recipient_id, public_key) VALUES(?, ?)"
-
         pubKey = identityKey.getPublicKey().serialize()
-        c.execute(q, (recipientId, buffer(pubKey) if sys.version_info < (2,7) else pubKey))
-        self.dbConn.commit()
+        try:
+            q = "DELETE FROM identities WHERE recipient_id=?"
+            c = self.dbConn.cursor()
+            c.execute(q, (recipientId,))
+
+            q = "INSERT INTO identities (recipient_id, public_key) VALUES(?, ?)"
+
+            c.execute(q, (recipientId, buffer(pubKey) if sys.version_info < (2,7) else pubKey))
+            self.dbConn.commit()
+        except Exception:
+            # a replacement that failed half-way is withdrawn; left pending, its delete would be committed by the next operation
+            self.dbConn.rollback()
+            raise
 
     def isTrustedIdentity(self, recipientId, identityKey):
         q = "SELECT public_key from identities WHERE recipient_id = ?"
